@@ -508,8 +508,7 @@ func (s scope) clone() scope {
 
 // functions that are emitted as Lean definitions of their own (calls to them stay calls); every
 // other package-level function called from a translated body is inlined
-var emittedByName = map[string]bool{"bigExponent": true, "digitOutOfRange": true, "formatSpecForF": true,
-	"formatSpecForG": true, "formatSpecForE": true}
+var emittedByName = map[string]bool{"bigExponent": true, "digitOutOfRange": true, "formatSpecForG": true}
 
 var structFields = map[string][]string{
 	"formatSpec": {"sigDigits", "exactDigitCount", "sci", "capital"},
@@ -1329,7 +1328,9 @@ func main() {
 		p.translateFunc(o, "digitOutOfRange", "digitOutOfRange", nil, nil)
 	}
 	p.emitRunEndTest(o)
-	for _, f := range []string{"formatSpecForF", "formatSpecForG", "formatSpecForE"} {
+	// formatSpecForG is used by String()/Exact() directly; formatSpecForF/E (v3) are inlined into
+	// newFormatSpec, so that folding them into their caller does not change what is generated
+	for _, f := range []string{"formatSpecForG"} {
 		if _, ok := p.funcs[f]; ok {
 			p.translateFunc(o, f, f, nil, nil)
 		}
